@@ -3,11 +3,11 @@ from __future__ import annotations
 import os, math, shutil
 from fractions import Fraction
 import numpy as np
-import impl
+import impl, forms
 from impl import quiet, Panoptica_Statistic
 from common import VERIF, close, frac
 
-RULE = ("values of every magnitude (1e-300 .. 9e16, negative: written with an exponent); statistics objects built in memory from Python ints, numpy integers, float32/64 scalars and None; generated .tsv result tables: 1-4 groups x 1-6 metrics x 1-30 subjects, cells finite / nan / inf / -inf / empty in "
+RULE = ("columns of repeated identical non-dyadic values; tables queried in a child interpreter started with -O; values of every magnitude (1e-300 .. 9e16, negative: written with an exponent); statistics objects built in memory from Python ints, numpy integers, float32/64 scalars and None; generated .tsv result tables: 1-4 groups x 1-6 metrics x 1-30 subjects, cells finite / nan / inf / -inf / empty in "
         "random patterns incl. whole columns without a finite value; each table also with its rows permuted; summaries are "
         "queried before and after per-subject look-ups; non-trivial = a column with >= 2 finite and >= 1 non-finite entries")
 
@@ -184,6 +184,69 @@ def constructed_case(ctx, tag, i):
     check_lookup(ctx, inp, st, groups, metrics, subjects, cols)
 
 
+def repeated_value_tables(ctx):
+    """columns whose finite values are several copies of one number (np.average of [0.8, 0.8, 0.8] is 0.8000000000000002,
+    above the maximum): the summary must still be returned"""
+    k = 0
+    for v in (0.8, 0.1, 0.2, 0.95, 0.7, 0.3, 1 / 3):
+        for n in (3, 6, 7):
+            col = [v] * n
+            table = [[x, "nan" if j == 1 else x] for j, x in enumerate(col)]
+            one_table(ctx, ["liver", "grp_2", "my-grp"][: 1 + k % 3], ["sq_dsc", "sq"], [f"s{j}" for j in range(n)],
+                      [row * (1 + k % 3) for row in table], f"corpus.repeated{k}")
+            k += 1
+    ctx.count("repeated_value_columns", k)
+
+
+def optimized_interpreter_tables(ctx, n):
+    """the same tables queried in a child interpreter started with -O"""
+    rng = ctx.rng
+    d = VERIF / ".work" / f"c20o_{os.getpid()}"
+    d.mkdir(parents=True, exist_ok=True)
+    tasks, meta = [], []
+    for i in range(n):
+        groups = rng.sample(GROUPS, rng.randint(1, 2))
+        metrics = rng.sample(METRICS, rng.randint(1, 3))
+        subjects = [f"s{k}" for k in range(rng.randint(2, 6))]
+        table = [[rng.choice([rng.random(), 0.8, None, "nan", rng.randint(0, 5)]) for _ in range(len(groups) * len(metrics))] for _ in subjects]
+        p = str(d / f"t{i}.tsv")
+        write_table(p, groups, metrics, subjects, table)
+        cols = [[g, m] for g in groups for m in metrics]
+        tasks.append({"kind": "stat_file", "path": p, "columns": cols, "subjects": subjects})
+        meta.append((groups, metrics, subjects, table))
+    res = forms.run_child([{"kind": "info"}] + tasks, optimize=True)
+    try:
+        if isinstance(res, dict) or not isinstance(res[0], dict) or res[0].get("debug") is not False:
+            ctx.notes.append("child interpreter with -O could not be started: " + str(res)[:200])
+            return
+        for (groups, metrics, subjects, table), out in zip(meta, res[1:]):
+            inp = {"groups": groups, "metrics": metrics, "subjects": subjects, "table": table, "mode": "python -O", "src": "optimized"}
+            ctx.case(inp, True)
+            ctx.count("python_-O")
+            if isinstance(out, str):
+                ctx.violation(f"loading the table raised {out} in an interpreter started with -O", inp, key={"kind": "summary-raises"})
+                continue
+            for gi, g in enumerate(groups):
+                for mi, m in enumerate(metrics):
+                    col = [finite_or_none(row[gi * len(metrics) + mi]) for row in table]
+                    fin = [x for x in col if x is not None]
+                    got = out["summaries"][f"{g}|{m}"]
+                    if fin:
+                        want = (float(np.average(fin)), float(np.std(fin)), min(fin), max(fin))
+                        if isinstance(got, str) or not (close(got[0], want[0]) and close(got[1], want[1], abs_=1e-9) and got[2] == want[2] and got[3] == want[3]):
+                            ctx.violation(f"in an interpreter started with -O the summary of {g}/{m} is {got}, but the finite recorded values give {want}",
+                                          inp, impl=got, key={"kind": "summary"})
+                    for si, sname in enumerate(subjects):
+                        o = out["subjects"][sname]
+                        gv = o if isinstance(o, str) else o[f"{g}|{m}"]
+                        if isinstance(gv, str) or not ((gv is None and col[si] is None) or (gv is not None and col[si] is not None and gv == col[si])):
+                            ctx.violation(f"in an interpreter started with -O get_one_subject('{sname}')['{g}']['{m}'] gives {gv}, recorded {col[si]}", inp,
+                                          impl=gv, key={"kind": "lookup"})
+                            break
+    finally:
+        shutil.rmtree(d, ignore_errors=True)
+
+
 def rand_table(ctx, tag, i):
     rng = ctx.rng
     groups = rng.sample(GROUPS, rng.randint(1, 4))
@@ -216,6 +279,8 @@ def run(ctx):
     one_table(ctx, ["liver"], ["sq_assd", "sq_dsc"], ["s0", "s1", "s2", "s3"],
               [[0.5, 0.9], ["inf", 0.2], [1.5, 0.5], ["-inf", "nan"]], "corpus.inf")
     one_table(ctx, ["liver"], ["sq_dsc"], ["s0", "s1", "s2"], [[0.2], [0.9], [0.5]], "corpus.unsorted-no-missing")
+    repeated_value_tables(ctx)
+    optimized_interpreter_tables(ctx, ctx.scale(15, 100))
     for i in range(ctx.scale(150, 1500)):
         rand_table(ctx, "rand", i)
     for i in range(ctx.scale(80, 800)):
@@ -229,6 +294,9 @@ def search(ctx):
 
 def replay(ctx, rec):
     i = rec["input"]
+    if i.get("mode") == "python -O":
+        optimized_interpreter_tables(ctx, 30)
+        return
     if i.get("constructed"):
         for k in range(200):
             constructed_case(ctx, "replay", k)
